@@ -82,7 +82,13 @@ func cmdCSV(o *Out, line string, f []string) {
 	// DumpCSV
 	dir, _ := os.MkdirTemp("", "verif-csv-")
 	defer os.RemoveAll(dir)
+	// an earlier, longer dump to the same prefix is in the way: its first file exists already
+	stale := []byte(strings.Repeat("stale,rows,from,an,earlier,dump\n1,2,3,4,5,6\n", 400))
+	_ = os.WriteFile(filepath.Join(dir, "d.0.csv"), stale, 0o644)
 	derr := ftdc.DumpCSV(ctx, ftdc.ReadChunks(ctx, bytes.NewReader(stream)), filepath.Join(dir, "d"))
+	if b, err := os.ReadFile(filepath.Join(dir, "d.0.csv")); err == nil && bytes.Equal(b, stale) {
+		os.Remove(filepath.Join(dir, "d.0.csv")) // this dump wrote no file at all: the old one is not its output
+	}
 	names, _ := filepath.Glob(filepath.Join(dir, "d.*.csv"))
 	sort.Slice(names, func(i, j int) bool {
 		var a, b int
@@ -158,6 +164,10 @@ func cmdCSV(o *Out, line string, f []string) {
 		}
 		if recsString(want) != recsString(recs) {
 			o.violation(line, "CSV text is not header + one row of integer-normalised values per sample", nil)
+			return
+		}
+		if derr == nil && len(names) == 1 && (len(fileRecs) != 1 || recsString(fileRecs[0]) != recsString(want)) {
+			o.violation(line, "the file DumpCSV wrote is not header + one row per sample (it differs from WriteCSV's table of the same stream)", nil)
 			return
 		}
 		// round trip: same keys, same integer table
